@@ -389,12 +389,16 @@ def _run_aio(rec, server, reads, datagram):
         rec.hook_framer(h.framer)
         for r in reads:
             rec.before_read()
+            burst = False
             if datagram:
-                data, sender = r
+                data, sender = r[0], r[1]
+                burst = len(r) > 2 and r[2] == "burst"     # the next datagram arrives before the handler task runs
                 rec.cur_dest = sender
                 h.datagram_received(data, addr_of(sender))
             else:
                 h.data_received(r)
+            if burst:
+                continue
             for _ in range(4):
                 await asyncio.sleep(0)
         alive = h.handler_task is not None and not h.handler_task.done()
